@@ -121,6 +121,31 @@ fn ingest_buffer(kind: &str) -> EventBuffer {
             c.insert("h".to_string(), strs(&["deadbeef00112233", "cafebabe44556677", "0123456789abcdef"]));
             tables.insert("h".to_string(), TableBuffer::new(c));
         }
+        // table `ov`: three partitions whose SUM overflows only when all three are merged
+        // (2^62 + 2^61 and 2^61 + 2^62 fit, 2^62 + 2^61 + 2^62 does not)
+        "ov_a" | "ov_c" => {
+            let mut c = HashMap::new();
+            c.insert("v".to_string(), ints(&[1i64 << 62]));
+            tables.insert("ov".to_string(), TableBuffer::new(c));
+        }
+        "ov_b" => {
+            let mut c = HashMap::new();
+            c.insert("v".to_string(), ints(&[1i64 << 61]));
+            tables.insert("ov".to_string(), TableBuffer::new(c));
+        }
+        // table `dict`: a few rows first (so that the next flush compacts), then one batch of 140 000
+        // rows with 69 000 distinct strings: a dictionary column whose indices need 32 bits
+        "dict_small" => {
+            let mut c = HashMap::new();
+            c.insert("d".to_string(), strs(&["k-a", "k-b"]));
+            tables.insert("dict".to_string(), TableBuffer::new(c));
+        }
+        "dict_big" => {
+            let mut c = HashMap::new();
+            let v: Vec<String> = (0..140_000usize).map(|i| format!("k{:06}", (i * 7919) % 69_000)).collect();
+            c.insert("d".to_string(), ColumnBuffer { data: ColumnData::String(v) });
+            tables.insert("dict".to_string(), TableBuffer::new(c));
+        }
         "canary" => {
             let mut c = HashMap::new();
             c.insert("x".to_string(), ints(&[1]));
@@ -236,6 +261,19 @@ fn do_stats(dbh: &Arc<LocustDB>, memtree: bool) -> Seen {
 
 /// an ingestion request = the ingestion followed by reading the table back
 fn do_ingest_request(dbh: &Arc<LocustDB>, kind: &str) -> Seen {
+    if kind == "bigdict" {
+        // a large dictionary column in one partition, compacted by the flush that follows it
+        for step in ["dict_small", "flush", "dict_big", "flush", "flush"] {
+            let r = if step == "flush" { do_flush(dbh) } else { do_ingest(dbh, step) };
+            match r {
+                Seen::Ok => {}
+                Seen::Panic(site, msg) if step == "flush" => return Seen::Panic(format!("flushstep {}", site), msg),
+                Seen::Hang if step == "flush" => return Seen::Err("flushstep-hang".into()),
+                other => return other,
+            }
+        }
+        return do_query(dbh, "SELECT COUNT(1) FROM dict WHERE d = 'k000007'");
+    }
     if kind == "hex_compact" {
         // F2 in one request: hex-packed strings, flushed until the partitions are compacted
         for _ in 0..6 {
@@ -268,8 +306,21 @@ fn do_ingest_request(dbh: &Arc<LocustDB>, kind: &str) -> Seen {
     }
 }
 
+/// deeply nested expressions, built here so that scenarios stay short: `(deep <kind> <depth>)`
+pub fn deep_query(kind: &str, depth: usize) -> String {
+    match kind {
+        "paren" => format!("SELECT {}i{} FROM t", "(".repeat(depth), ")".repeat(depth)),
+        "minus" => format!("SELECT {}i FROM t", "- ".repeat(depth)),
+        "not" => format!("SELECT i FROM t WHERE {}i = 1", "NOT ".repeat(depth)),
+        "mixed" => format!("SELECT i FROM t WHERE {}i = 1{}", "NOT (".repeat(depth), ")".repeat(depth)),
+        "sub" => format!("SELECT i FROM t WHERE i = {}1{}", "(SELECT ".repeat(depth), ")".repeat(depth)),
+        other => panic!("unknown deep kind {}", other),
+    }
+}
+
 fn do_request(dbh: &Arc<LocustDB>, req: &Sx) -> Seen {
     match req.tag() {
+        "deep" => do_query(dbh, &deep_query(req.items()[1].atom(), req.items()[2].as_usize())),
         "q" => do_query(dbh, &String::from_utf8(req.items()[1].as_bytes()).unwrap()),
         "ingest" => do_ingest_request(dbh, req.items()[1].atom()),
         "flush" => do_flush(dbh),
@@ -327,6 +378,14 @@ pub fn child_main(spec: &str) {
         let d = dbh.clone();
         db::runtime().block_on(async move { d.ingest_efficient(initial_table()).await });
     }
+    // table `ov`: two flushed partitions and the open buffer (three partitions for every query)
+    for step in ["ov_a", "flush", "ov_b", "flush", "ov_c"] {
+        let r = if step == "flush" { do_flush(&dbh) } else { do_ingest(&dbh, step) };
+        if r != Seen::Ok {
+            println!("(nostart)");
+            std::process::exit(0);
+        }
+    }
     let _ = db::take_panics();
     if !db::learn_pool_threads(&dbh, threads) {
         println!("(nostart)");
@@ -353,6 +412,7 @@ pub fn child_main(spec: &str) {
     println!("(ready)");
     let mut wedged = false;
     for (ri, round) in it[3..].iter().enumerate() {
+        println!("(begin {})", ri);
         let reqs: Vec<Sx> = round.items()[1..].to_vec();
         // the requests of a round run concurrently, one client thread each
         let handles: Vec<_> = reqs
@@ -452,6 +512,10 @@ fn valid_pool() -> Vec<Sx> {
         q("SELECT big % -1 FROM t"),
         q("SELECT i FROM t ORDER BY s LIMIT 0"),
         q("SELECT i FROM t ORDER BY i DESC LIMIT 1"),
+        q("SELECT SUM(v) FROM ov WHERE v < 4611686018427387904"),
+        q("SELECT MAX(v), COUNT(1) FROM ov"),
+        Sx::l(vec![Sx::a("deep"), Sx::a("paren"), Sx::int(20)]),
+        Sx::l(vec![Sx::a("deep"), Sx::a("minus"), Sx::int(20)]),
         q("SELECT \"\"\"\" FROM t"),
         q("SELECT \"i\" = é FROM t"),
         ing("ok"),
@@ -489,6 +553,9 @@ fn failing_pool() -> Vec<Sx> {
         q("SELECT big * 2 FROM t"),
         q("SELECT i * 9223372036854775807 FROM t"),
         q("SELECT SUM(big) FROM t"),
+        // overflows only in the final cross-partition merge (see table `ov`)
+        q("SELECT SUM(v) FROM ov"),
+        q("SELECT SUM(v) + 0 FROM ov"),
         q("SELECT i / 0 FROM t"),
         q("SELECT i % 0 FROM t"),
         q("SELECT DISTINCT i FROM t"),
@@ -503,6 +570,19 @@ fn failing_pool() -> Vec<Sx> {
         q("SELECT i FROM t; SELECT i FROM u"),
         q("SELECT UPPER(s) FROM t"),
         q("SELECT i FROM t WHERE s LIKE 'a!%' ESCAPE '!'"),
+        // nesting beyond sqlparser's recursion limit (50): an error value, whatever the depth
+        Sx::l(vec![Sx::a("deep"), Sx::a("paren"), Sx::int(60)]),
+        Sx::l(vec![Sx::a("deep"), Sx::a("paren"), Sx::int(100)]),
+        Sx::l(vec![Sx::a("deep"), Sx::a("paren"), Sx::int(1000)]),
+        Sx::l(vec![Sx::a("deep"), Sx::a("paren"), Sx::int(30000)]),
+        Sx::l(vec![Sx::a("deep"), Sx::a("minus"), Sx::int(100)]),
+        Sx::l(vec![Sx::a("deep"), Sx::a("minus"), Sx::int(1000)]),
+        Sx::l(vec![Sx::a("deep"), Sx::a("minus"), Sx::int(30000)]),
+        Sx::l(vec![Sx::a("deep"), Sx::a("not"), Sx::int(100)]),
+        Sx::l(vec![Sx::a("deep"), Sx::a("not"), Sx::int(1000)]),
+        Sx::l(vec![Sx::a("deep"), Sx::a("not"), Sx::int(30000)]),
+        Sx::l(vec![Sx::a("deep"), Sx::a("sub"), Sx::int(100)]),
+        Sx::l(vec![Sx::a("deep"), Sx::a("mixed"), Sx::int(20)]),
     ]
 }
 
@@ -555,10 +635,11 @@ struct Line {
     npanics: usize,
 }
 
-fn parse_lines(out: &str) -> (Vec<Line>, bool, bool) {
+fn parse_lines(out: &str) -> (Vec<Line>, bool, bool, Option<usize>) {
     let mut lines = vec![];
     let mut ready = false;
     let mut done = false;
+    let mut begun = None;
     for l in out.lines() {
         let sx = match Sx::parse(l.trim()) {
             Ok(s) => s,
@@ -567,6 +648,7 @@ fn parse_lines(out: &str) -> (Vec<Line>, bool, bool) {
         let it = sx.items();
         match it[0].atom() {
             "ready" => ready = true,
+            "begin" => begun = Some(it[1].as_usize()),
             "done" => done = true,
             "req" | "canary" => lines.push(Line {
                 tag: it[0].atom().to_string(),
@@ -579,7 +661,7 @@ fn parse_lines(out: &str) -> (Vec<Line>, bool, bool) {
             _ => {}
         }
     }
-    (lines, ready, done)
+    (lines, ready, done, begun)
 }
 
 /// run the child under a total deadline; returns its stdout (None when it had to be killed)
@@ -650,7 +732,7 @@ fn held_of(kind: &str, detail: &str) -> &'static str {
 
 fn req_kind(rq: &Sx) -> &'static str {
     match rq.tag() {
-        "q" => "query",
+        "q" | "deep" => "query",
         "ingest" => "ingest",
         "flush" => "flush",
         _ => "stats",
@@ -683,6 +765,65 @@ impl Suite for Canary {
                 cases.push(Case { class: format!("pinned-k{}+{}", threads, id), input: sc });
             }
         }
+        let deep = |k: &str, d: usize| Sx::l(vec![Sx::a("deep"), Sx::a(k), Sx::int(d)]);
+        // F36 first: it costs a full evidence-free deadline and overlaps with everything else
+        cases.insert(
+            0,
+            Case {
+                class: "pinned-k2+F36".into(),
+                input: Sx::tagged(
+                    "scenario",
+                    vec![Sx::int(2), Sx::boolean(false), Sx::tagged("round", vec![deep("mixed", 64)]), Sx::tagged("round", vec![q("SELECT i FROM t LIMIT 3")])],
+                ),
+            },
+        );
+        // an overflow that appears only in the final cross-partition merge, with 1 and with 3 workers
+        for threads in [1u64, 3] {
+            cases.push(Case {
+                class: format!("pinned-k{}-lastmerge", threads),
+                input: Sx::tagged(
+                    "scenario",
+                    vec![
+                        Sx::int(threads),
+                        Sx::boolean(false),
+                        Sx::tagged("round", vec![q("SELECT SUM(v) FROM ov")]),
+                        Sx::tagged("round", vec![q("SELECT MAX(v), COUNT(1) FROM ov")]),
+                        Sx::tagged("round", vec![q("SELECT SUM(v) + 0 FROM ov")]),
+                        Sx::tagged("round", vec![q("SELECT i FROM t LIMIT 3")]),
+                    ],
+                ),
+            });
+        }
+        // nesting far beyond the parser's recursion limit, every form, one worker
+        cases.push(Case {
+            class: "pinned-k1-deep".into(),
+            input: Sx::tagged(
+                "scenario",
+                vec![
+                    Sx::int(1),
+                    Sx::boolean(false),
+                    Sx::tagged("round", vec![deep("paren", 60)]),
+                    Sx::tagged("round", vec![deep("paren", 100)]),
+                    Sx::tagged("round", vec![deep("minus", 100)]),
+                    Sx::tagged("round", vec![deep("not", 100)]),
+                    Sx::tagged("round", vec![deep("paren", 1000)]),
+                    Sx::tagged("round", vec![deep("minus", 1000)]),
+                    Sx::tagged("round", vec![deep("not", 1000)]),
+                    Sx::tagged("round", vec![deep("sub", 1000)]),
+                    Sx::tagged("round", vec![deep("paren", 30000)]),
+                    Sx::tagged("round", vec![deep("minus", 30000)]),
+                    Sx::tagged("round", vec![deep("not", 30000)]),
+                ],
+            ),
+        });
+        // a dictionary column with more than 65535 distinct values, compacted by force_flush
+        cases.push(Case {
+            class: "pinned-k2-bigdict".into(),
+            input: Sx::tagged(
+                "scenario",
+                vec![Sx::int(2), Sx::boolean(true), Sx::tagged("round", vec![ing("bigdict")]), Sx::tagged("round", vec![ing("ok")])],
+            ),
+        });
         for _ in 0..n {
             let (class, sc) = gen_scenario(&mut r);
             cases.push(Case { class, input: sc });
@@ -720,7 +861,7 @@ impl Suite for Canary {
             Some(rx) => rx.recv().unwrap_or((String::new(), true)),
             None => run_child(&spec, total_deadline(input)),
         };
-        let (lines, ready, done) = parse_lines(&out);
+        let (lines, ready, done, begun) = parse_lines(&out);
         let it = input.items();
         let threads = it[1].as_usize();
         let rounds: Vec<&Sx> = it[3..].iter().collect();
@@ -814,7 +955,24 @@ impl Suite for Canary {
             }
             expect_rounds.push(Sx::L(ec));
         }
-        let impl_out = if killed && !done { Sx::tagged("killed", expect_rounds.clone()) } else { Sx::L(expect_rounds) };
+        let died = !done && !killed;
+        if died {
+            // the child process itself went away (abort / stack overflow / SIGSEGV): every later call fails
+            let r = begun.unwrap_or(0);
+            let what = rounds.get(r).map(|x| x.to_string()).unwrap_or_default();
+            let what: String = what.chars().take(160).collect();
+            first_bad = Some((
+                "c11:process-died".into(),
+                format!("the database process died while round {} was in flight: {}", r, what),
+            ));
+        }
+        let impl_out = if died {
+            Sx::tagged("died", expect_rounds.clone())
+        } else if killed && !done {
+            Sx::tagged("killed", expect_rounds.clone())
+        } else {
+            Sx::L(expect_rounds)
+        };
         if killed && !done && first_bad.is_none() {
             first_bad = Some(("c11:child-killed".into(), "the scenario did not finish within its total deadline".into()));
         }
